@@ -48,6 +48,7 @@ fn main() {
         match id.as_str() {
             "C05" => c05::child_main(&a),
             "E2" => e2::worker_main(),
+            "E3" => e3::child_runwait(args.get(4).map(String::as_str).unwrap_or("")),
             _ => machinery_error("no child mode for this id"),
         }
     }
@@ -84,6 +85,7 @@ fn main() {
         "C02" | "C06" | "C07" => e2::run(&ctx, &id),
         "C15" => e2::run(&ctx, "C15"),
         "C08" => e3::run_c08(&ctx),
+        "C09" => e3::run_c09(&ctx),
         _ => machinery_error(format!("unknown property id {id}")),
     }
 }
